@@ -14,6 +14,7 @@ from ..model.packfmt import DeltaError, enc_varint, patch_delta, read_varint
 PROPERTY = "C03"
 LEVEL = "exploration"
 NEEDS_RUST = True
+AUTO_TWINS = False  # this module drives both implementations explicitly
 RULE = (
     "(a) Hypothesis-generated (base,target) pairs built from slices of the base and literal inserts (empty, identical, "
     ">64 KiB runs, offsets needing 1-3 bytes) through every encoder {python, rust, C git pack-objects} x decoder "
